@@ -36,6 +36,16 @@ CFG = gen.Config(kinds=['text', 'var', 'var', 'ent', 'call', 'if', 'if',
                         'unless', 'in', 'in', 'with', 'let', 'try', 'comment',
                         'boom', 'sub', 'raise', 'return'],
                  max_depth=3, max_items=3, literals=False)
+# literal text that is not (the beginning of) a tag in any of the three
+# syntaxes, so that the three printings stay equivalent: near-tag fragments
+# without ';' (which could complete an entity) and without '(' and '#'
+LIT_FRAGS = ['&dtml-', '&dtml.', '&dtml', '&', '&dt', '<', '>', '<d', '%',
+             ')', ')s', '[', ']', '"', "'", 'x', ' ', '\n', '-->', '<!-',
+             '%%', '100%', 'é', '<b>', '&amp', 'if', '/', '-', '.']
+CFG_LIT = gen.Config(kinds=['text', 'text', 'var', 'ent', 'if', 'unless',
+                            'in', 'with', 'let', 'try', 'comment'],
+                     max_depth=2, max_items=4, literals=True, eol=False,
+                     frag_list=LIT_FRAGS)
 SYNTAXES = ('dtml', 'ssi', 'epfs')
 MODS = ['html_quote', 'url_quote', 'url_quote_plus', 'url_unquote',
         'url_unquote_plus', 'newline_to_br', 'lower', 'upper', 'capitalize',
@@ -389,7 +399,8 @@ def attrvalue_cases():
 def strategy():
     from hypothesis import strategies as st
     return st.fixed_dictionaries(dict(
-        ast=gen.template(CFG),
+        ast=st.one_of(gen.template(CFG), gen.template(CFG),
+                      gen.template(CFG_LIT)),
         picks=st.lists(st.integers(0, 200), min_size=1, max_size=10),
         styles=st.tuples(gen.style(), gen.style(), gen.style())))
 
